@@ -37,6 +37,16 @@ CLAIMED = {
         "For every DAG on up to 4 commits (5 thorough) and every pair of query commits, with commit timestamps as symbolic integers in [-2^40,2^40] (the code only compares/negates them, so all orderings incl. ties, backwards and negative clocks are covered): _find_lcas/find_merge_base return exactly the maximal common ancestors, can_fast_forward(a,b) <=> a is an ancestor of b, independent/find_octopus_base (thorough) are exact; Walker yields exactly the reachable set once each in date and topo order (never a parent before its child), and reachable(include)-reachable(exclude) under monotone clocks. Three genuine defects found by this check were repaired (fix: commits 77392fb, 0225633, 3a70501).",
         "Trusted: z3, ksym, CPython. Commits are real Commit objects with fixed ids in a dict-backed store (no serialisation); heapq runs natively on the proxies' comparison protocol.",
     ),
+    "C11": (
+        "bounded symbolic execution of the real index (de)serialisation kernels (ksym) against each other and against reference models of git's varint.c and on-disk entry layout",
+        "For every value below 2^63 the v4 varint round-trips and is byte-identical to git's varint.c; path compression round-trips (memory and stream decoders) for every pair of paths of up to 3 bytes and for 127..300-byte previous paths; write_cache_entry->read_cache_entry returns every field for versions 2,3,4 with all stat fields, stage/assume-valid and skip-worktree/intent-to-add bits symbolic, names of 1..9 symbolic bytes (all padding classes) and of 0xFFE..0x1001 bytes, with git's layout (saturating 12-bit length, 1..8 NUL padding); index_entry_from_stat->write never fails for any 64-bit stat value and stores it modulo 2^32. Three genuine defects found by this check were repaired. Ordering of entries, extensions and the SHA trailer are not covered by this check yet.",
+        "Trusted: z3, ksym (struct/BytesIO/binascii models, translator-validated), reference models of git's formats (the v4 varint additionally exercised against the git binary by dulwich's own compat tests).",
+    ),
+    "C17": (
+        "bounded symbolic execution of the real path validators and leading-directory check (ksym) against independent file-system-equivalence predicates and a symbolic lstat table",
+        "For every element of up to 5 (default) / 6 (NTFS; 7 thorough) bytes: an accepted element is not a spelling of .git, git~1, '.', '..' or empty under case folding, trailing dots/blanks, ':stream' suffixes and backslash segments, and the default validator refuses nothing else; validate_path accepts no path of up to 6 bytes with a dangerous component or a leading '/'; verify_leading_dirs, for every symbolic state (absent/dir/symlink/file) of up to 3 leading components and every admissible safe_prefix cache, returns normally only if no existing leading component is a symlink and keeps the cache invariant. The end-to-end checkout composition and the HFS+ validator are not covered by this check.",
+        "Trusted: z3, ksym, the written-down NTFS/case-insensitive equivalences (from git's is_ntfs_dotgit/verify_dotfile); os.lstat is replaced by a symbolic table.",
+    ),
 }
 
 NOT_YET = "check not built yet in this round (planned in DESIGN.md section 4); no claim is made"
